@@ -177,7 +177,7 @@ func TestWithdrawAuthorisation(t *testing.T) {
 		multisigEdits := []string{"mLow", "sigsLow", "foreignKeyReplace", "dropKey", "dupKey", "extraForeignKey",
 			"nByteWrong", "dupSig", "badSig", "foreignSigPad", "shuffleKeys", "mHigh", "sigsAll"}
 		schnorrEdits := []string{"dupIndex", "oobIndex", "tooFew", "programOtherSet", "badSig", "dupIndexProgramDistinct", "manySigners"}
-		inputEdits := []string{"mixedInput", "stdOnlyInput", "twoXAddresses"}
+		inputEdits := []string{"mixedInput", "stdOnlyInput", "twoXAddresses", "scriptOwnedInput", "scriptOwnedInput"}
 		nEdits := rapid.SampledFrom([]int{0, 1, 1, 1, 2}).Draw(t, "nEdits")
 		for i := 0; i < nEdits; i++ {
 			pool := multisigEdits
@@ -398,6 +398,36 @@ func TestWithdrawAuthorisation(t *testing.T) {
 		if nStd > 0 {
 			progs = append(progs, &program.Program{Code: f.N.Keys[1].RedeemScript})
 		}
+		// scriptOwnedInput: a NON cross-chain coin whose owner hash is derived (standard prefix) from the very
+		// script the arbiters sign with, so that no program or signature rule stands in for the X-only rule
+		if has(c.Edits, "scriptOwnedInput") && !has(c.Edits, "stdOnlyInput") && !has(c.Edits, "mixedInput") {
+			code := progs[0].Code
+			owner := *common.ToProgramHash(byte(contract.PrefixStandard), code)
+			src := f.SCoins[len(f.SCoins)-1]
+			fundTx := functions.CreateTransaction(ctypes.TxVersion09, ctypes.TransferAsset, 0, &payload.TransferAsset{},
+				[]*ctypes.Attribute{f.NonceAttr()}, []*ctypes.Input{{Previous: src.Op}},
+				[]*ctypes.Output{xchain.PlainOut(src.Val-100, owner)}, 0, []*program.Program{{Code: []byte{1}, Parameter: []byte{1}}})
+			if _, _, err := f.SaveBlock([]interfaces.Transaction{fundTx}); err != nil {
+				t.Fatalf("harness: fund script-owned coin: %v", err)
+			}
+			defer func() {
+				if err := f.RollbackTip(); err != nil {
+					t.Fatalf("harness: rollback of the script-owned funding block: %v", err)
+				}
+			}()
+			inputs = append(inputs, &ctypes.Input{Previous: ctypes.OutPoint{TxID: fundTx.Hash(), Index: 0}})
+			outs[0].Value += src.Val - 100
+			allX = false
+			c.Inputs += "+script-owned-standard"
+			extra := &program.Program{Code: code}
+			if c.Version != 2 {
+				msProgs = append(msProgs, msProgs[0])
+				// keep the standard-key program (if any) last: signatures are filled by position
+				progs = append(progs[:len(msProgs)-1], append([]*program.Program{extra}, progs[len(msProgs)-1:]...)...)
+			} else {
+				progs = append(progs, extra)
+			}
+		}
 
 		tx := functions.CreateTransaction(txVersion, ctypes.WithdrawFromSideChain, c.Version, pl,
 			[]*ctypes.Attribute{f.NonceAttr()}, inputs, outs, 0, progs)
@@ -468,6 +498,9 @@ func TestWithdrawAuthorisation(t *testing.T) {
 			}
 		}
 		c.Accepted = err == nil
+		if os.Getenv("C33_DEBUG") == "mixed" && c.Version == 1 && c.Inputs != "x-only" && c.Inputs != "x-two-addresses" && len(c.Edits) == 1 {
+			fmt.Println("MIXED", c.Inputs, stage, err)
+		}
 		c.Stage = stage
 		if err != nil {
 			c.Error = err.Error()
